@@ -23,7 +23,7 @@ RULE = ("corpora of 1..4 sentences written by a grammar-directed encoder with ra
 TRUSTED = ["xml.etree.ElementTree parses the TIGER-XML text for both sides; codecs and gunzip are exercised, not modelled"]
 ASSUMPTIONS = ["labels and words contain no whitespace; bracket-format tokens contain no parentheses"]
 
-WORDS = ["#100Days", "#2020", "#5", "#abc", "50#", "#5001", "der", "Hund", "bellt", "a", "x<y", "R&D", "\"q\"", "it's", "straße", "été", "-LRB-", "[br]", "{", "1990", "x=y", "日本"]
+WORDS = ["%%", "%%x", "#100Days", "#2020", "#5", "#abc", "50#", "#5001", "der", "Hund", "bellt", "a", "x<y", "R&D", "\"q\"", "it's", "straße", "été", "-LRB-", "[br]", "{", "1990", "x=y", "日本"]
 LABELS = ["S", "VP", "NP", "PP", "NP-SBJ", "NP-SBJ-1", "VP=2", "X#OA", "NP#SB-3", "CS"]
 POS = ["NN", "VVFIN", "ART", "$.", "PPER", "NN-HD", "V#HD"]
 WS = [" ", "\n", "\t", "  ", " \n ", "\n\n"]
